@@ -75,41 +75,55 @@ def census(recs, cfg):
     out = []
     expect_start = True      # the next ATOM residue starts a chain
     start_res = None
+    start_deps = []          # records the chain-start status itself depends on
     cur_res = None
     cur_has_oxt = False
+    cur_oxt = []
+    hard_start = True        # start of file/model or after TER (not merely after an OXT)
     for i, (is_atom, line) in enumerate(recs):
         tag = line[0:6]
         if not is_atom:
             if tag.strip() in ('TER', 'MODEL'):
                 expect_start = True
+                hard_start = True
                 cur_res = None
                 cur_has_oxt = False
+                cur_oxt = []
             continue
         if tag != 'ATOM  ' or line[17:20] in NUCLEIC or line[17:20] in cfg.ignore:
             continue
         res = (line[21], line[22:26], line[26], line[17:20])
         if res != cur_res:
+            soft = []
             if cur_has_oxt:
                 expect_start = True
+                soft = list(cur_oxt)
             cur_res = res
             cur_has_oxt = False
+            cur_oxt = []
             if expect_start:
                 start_res = res
+                # a chain start that is one only because the previous residue
+                # carries a terminal oxygen stays one only while that oxygen does
+                start_deps = [] if hard_start else soft
                 expect_start = False
+                hard_start = False
             else:
                 start_res = None
         name = line[12:16].strip()
         if is_hydrogen(line):
             continue
         if name == 'N' and start_res == res:
-            out.append((_label('N+', line), i))
+            out.append((_label('N+', line), i, list(start_deps)))
         if name in ('OXT', "O''"):
             out.append((_label('C-', line), i))
             cur_has_oxt = True
+            cur_oxt.append(i)
         key = '{0}-{1}'.format(line[17:20], name)
         if cfg.mapping.get(key) in IONIZABLE_TYPES:
             out.append((_label(line[17:20], line), i))
-    return out
+    # uniform shape: (label, defining record, records its status depends on)
+    return [t if len(t) == 3 else (t[0], t[1], []) for t in out]
 
 
 def multi_conformation(recs):
